@@ -71,13 +71,15 @@ theorem enter_sub_holds_parent (cfg : Cfg) (hs : cfg.subStartSticky = false) (s 
   unfold enterSub
   simp [hs]
 
-/-- a second token at an active sub-process node is flagged as outside the model's domain, never merged -/
-theorem enter_sub_twice_flagged (cfg : Cfg) (p : Proc) (s : St) (t : Tok) (n : Node)
-    (hn : p.node? t.node = some n) (hk : n.kind = .sub) (hbusy : s.subs.any (·.node == n.id) = true)
-    (hfresh : s.outOfScope = none) :
-    (arrive cfg p s t).1 = [] ∧ (arrive cfg p s t).2.outOfScope.isSome = true := by
+/-- **Activations take turns** (subprocess.go `sp.activation`). A second token at an active sub-process node waits AT the
+node: it starts nothing, requests nothing, joins no activation (`subs` unchanged) — never merged into the running one. -/
+theorem enter_sub_twice_waits (cfg : Cfg) (p : Proc) (s : St) (t : Tok) (n : Node)
+    (hn : p.node? t.node = some n) (hk : n.kind = .sub) (hbusy : s.subs.any (·.node == n.id) = true) :
+    (arrive cfg p s t).1 = [] ∧ (arrive cfg p s t).2.parked = s.parked ++ [t] ∧ (arrive cfg p s t).2.subs = s.subs ∧
+    (arrive cfg p s t).2.pending = s.pending ∧ (arrive cfg p s t).2.nextFid = s.nextFid ∧
+    (arrive cfg p s t).2.obs = s.obs := by
   unfold arrive
-  simp [hn, hk, hbusy, St.oos, hfresh]
+  simp [hn, hk, hbusy]
 
 /-- **Returning needs an empty scope.** If `settle` lets no inclusive gateway synchronise and yet releases tokens, then some
 parent token's scope held no live token. -/
@@ -119,7 +121,7 @@ theorem return_sub_once (cfg : Cfg) (hr : cfg.subNeverReturns = false) (p : Proc
     | some n =>
       simp only
       split
-      all_goals (split <;> (simp only []; rw [Bpmn.Props.C01Fragment.selectFlows_subs]; exact hfilter))
+      all_goals (rw [nextTurn_subs, Bpmn.Props.C01Fragment.selectFlows_subs]; exact hfilter)
 
 /-- **Returning does happen.** As soon as the work list is empty, no inclusive gateway synchronises and the scope of an
 active sub-process holds no live token, `settle` releases that sub-process's parent token over the sub-process node's own
@@ -130,7 +132,9 @@ theorem return_when_scope_empty (cfg : Cfg) (hr : cfg.subNeverReturns = false) (
     (hn : p.node? t.node = some n) :
     ∃ s', (settle cfg p s).1 =
       (if (selectFlows cfg p s' t n.outs false).2.1 then [t] ++ (selectFlows cfg p s' t n.outs false).1
-       else (selectFlows cfg p s' t n.outs false).1) ∧ t ∉ s'.subs := by
+       else (selectFlows cfg p s' t n.outs false).1) ++
+        -- … and the first token waiting at the node (if any) takes its turn: it arrives at the node again
+        ((selectFlows cfg p s' t n.outs false).2.2.parked.find? (·.node == t.node)).toList ∧ t ∉ s'.subs := by
   unfold settle
   cases hsi : settleIncl cfg p s [] with
   | mk r s1 =>
@@ -140,8 +144,7 @@ theorem return_when_scope_empty (cfg : Cfg) (hr : cfg.subNeverReturns = false) (
     simp only [hfind, hr, Bool.false_eq_true, if_false, hn]
     refine ⟨{ s1 with subs := s1.subs.filter (· != t),
                        subFired := if s1.subFired.contains t.node then s1.subFired else t.node :: s1.subFired }, ?_, ?_⟩
-    · split
-      all_goals (split <;> rename_i hc <;> simp [hc])
+    · rw [nextTurn_fst]
     · intro hm
       have h2 := (List.mem_filter.mp hm).2
       have hself : (t != t) = false := by
